@@ -51,6 +51,11 @@ class GotranCCodePrinter(C99CodePrinter):
     def _print_Float(self, flt):
         return self._print(str(float(flt)))
 
+    def _print_Abs(self, expr):
+        # sympy prints the integer function abs() for arguments it knows to be integer valued
+        # (e.g. floor(x)), but all quantities are doubles here (and <stdlib.h> is not included)
+        return f"fabs({self._print(expr.args[0])})"
+
     def _print_Piecewise(self, expr):
         if isinstance(expr.args[0][0], Assignment):
             result = []
